@@ -149,6 +149,77 @@ def rule_b(ctx):
     ctx.floor(R, 1)
 
 
+def _fold_het_linear(het):
+    """Fold HeterogeneousLinearModel.__call__ for two labels and an image of the labels' resolution: True when the stores into the
+    zero-initialised result are exactly result[labels == L_k] = (S_k * img + O_k)[labels == L_k]; None otherwise (not decided here)."""
+    from ..fold import Folder, Obj, Opaque, Raised, Refuse, Sym
+    from ..terms import nf
+
+    fo = Folder(symbolic=True)
+    fo.func_stack.append(het.node)
+    fo.fold_all_methods = True
+    so = Obj("self", {"__class__": "HeterogeneousLinearModel", "unique_labels": [Opaque("l", "L0"), Opaque("l", "L1")], "_scaling": [Opaque("s", "S0"), Opaque("s", "S1")],
+                      "_offset": [Opaque("o", "O0"), Opaque("o", "O1")], "cached_labels": Opaque("arr", "LABELS", {"shape": (4, 5)})})
+    img = Opaque("arr", "IMG", {"shape": (4, 5, 3), "dtype": Opaque("dtype", "IMG.dtype")})
+    try:
+        r = fo.call(het.node, [so, img])
+    except (Refuse, Raised):
+        return None
+    sets = [t for t in fo.trace if isinstance(t, Sym) and t.fn in ("setitem", "augitem")]
+    if any(t.fn == "augitem" or t.args[0] is not r for t in sets) or nf(r) not in ("np.zeros_like(IMG, dtype=IMG.dtype)", "np.zeros(IMG.shape, dtype=IMG.dtype)", "np.zeros((4, 5, 3), dtype=IMG.dtype)"):
+        return None
+    got = sorted((nf(t.args[1]), nf(t.args[2])) for t in sets)
+    wants = []
+    for k in (0, 1):
+        mk = f"(LABELS == L{k})"
+        wants.append({(mk, f"((IMG * S{k}) + O{k})[{mk}]"), (mk, f"((IMG[{mk}] * S{k}) + O{k})")})
+    if len(got) == 2 and all(any(g in w for g in got) for w in wants) and got[0] != got[1]:
+        return True
+    # evidence: the stores have the documented form but select with another relation / another mask on one side
+    import re
+
+    for mk, val in got:
+        mm = re.fullmatch(r"\(LABELS (\S+) L(\d)\)", mk)
+        rm = re.fullmatch(r"\(L(\d) (\S+) LABELS\)", mk)
+        if mm and mm.group(1) != "==":
+            return ("violated", f"label {mm.group(2)} is selected with `cached_labels {mm.group(1)} label`, not with equality")
+        if rm and rm.group(2) != "==":
+            return ("violated", f"label {rm.group(1)} is selected with `label {rm.group(2)} cached_labels`, not with equality")
+        vm = re.fullmatch(r"(.*)\[(\(LABELS \S+ L\d\))\]", val)
+        if mm and vm and vm.group(2) != mk:
+            return ("violated", f"the assignment selects the destination with {mk} and the source with {vm.group(2)}")
+    return None
+
+
+def _fold_het_threshold(g):
+    """Fold StaticThresholdModel._call_heterogeneous for two labels, without and with upper thresholds: True when the stores into the
+    all-False result are result[(img > lower_k) [& (img < upper_k)] & (labels == L_k)] = True; None otherwise."""
+    from ..fold import Arr, Folder, Obj, Opaque, Raised, Refuse, Sym
+    from ..terms import nf
+
+    for upper in (None, [Opaque("u", "U0"), Opaque("u", "U1")]):
+        fo = Folder(symbolic=True)
+        fo.func_stack.append(g.node)
+        fo.fold_all_methods = True
+        fo.overrides = {"np.unique": lambda a, k: [Opaque("l", "L0"), Opaque("l", "L1")] if a and nf(a[0]) == "LABELS" else Sym("np.unique", a, k)}
+        so = Obj("self", {"__class__": "StaticThresholdModel", "_labels": Opaque("arr", "LABELS", {"shape": (4, 5)}),
+                          "_threshold_lower": [Opaque("t", "T0"), Opaque("t", "T1")], "_threshold_upper": upper})
+        try:
+            r = fo.call(g.node, [so, Opaque("arr", "IMG", {"shape": (4, 5)})])
+        except (Refuse, Raised):
+            return None
+        sets = [t for t in fo.trace if isinstance(t, Sym) and t.fn in ("setitem", "augitem")]
+        if not isinstance(r, Arr) or tuple(r.shape) != (4, 5) or any(x not in (False, 0) for row in r.data for x in row):
+            return None
+        if len(sets) != 2 or any(t.fn != "setitem" or t.args[0] is not r or t.args[2] is not True for t in sets):
+            return None
+        got = sorted(nf(t.args[1]) for t in sets)
+        want = sorted("and(" + ", ".join(sorted([f"(T{k} < IMG)", f"(LABELS == L{k})"] + ([f"(IMG < U{k})"] if upper else []))) + ")" for k in (0, 1))
+        if got != want:
+            return None
+    return True
+
+
 def rule_c(ctx):
     R = "C14.c"
     ctx.rule(R, "label-wise models use the homogeneous formula per label: the per-label expression of HeterogeneousLinearModel normalises to "
@@ -166,55 +237,65 @@ def rule_c(ctx):
     conv = ToPoly(atomize=lambda n: "x" if norm(n) == lin.params[1] else None)
     hom = conv(rets[0])
     ctx.ob(R, lin.qname, "LinearModel is scaling * x + offset", hom == Poly.atom("self._scaling") * x + Poly.atom("self._offset"), repr(hom), lin.node)
-    loops = [l for l in ast.walk(het.node) if isinstance(l, ast.For)]
-    ok_iter = len(loops) == 1 and norm(loops[0].iter) == "enumerate(self.unique_labels)"
-    ctx.ob(R, het.qname, "labels are visited as enumerate(self.unique_labels)", ok_iter, norm(loops[0].iter) if loops else "", het.node)
-    if loops and ok_iter and isinstance(loops[0].target, ast.Tuple) and len(loops[0].target.elts) == 2:
-        cnt, lab = (norm(e) for e in loops[0].target.elts)
-        env = {norm(s.targets[0]): s.value for s in loops[0].body if isinstance(s, ast.Assign) and isinstance(s.targets[0], ast.Name)}
-        stores = [s for s in loops[0].body if isinstance(s, ast.Assign) and isinstance(s.targets[0], ast.Subscript)]
-        val = None
-        if len(stores) == 1:
-            v = stores[0].value
-            mk = norm(stores[0].targets[0].slice)
-            mask_def = norm(env[mk]) if mk in env else ""
-            if isinstance(v, ast.Subscript) and isinstance(v.value, ast.Name) and v.value.id in env:
-                val = env[v.value.id]
-                both = norm(v.slice) == mk
-            elif isinstance(v, ast.Subscript) and norm(v.slice) == mk and not isinstance(v.value, ast.Name):
-                val = v.value  # (expression)[mask]
-                both = True
-            else:
-                # masked right-hand side: every occurrence of the input must be restricted by the same mask
-                val = v
-                occ = [x for x in ast.walk(v) if isinstance(x, ast.Name) and x.id == het.params[1]]
-                both = bool(occ) and all(isinstance(getattr(x, "_parent", None), ast.Subscript) and x._parent.value is x and norm(x._parent.slice) == mk for x in occ)
-                masked_input = f"{het.params[1]}[{mk}]"
-            mk_x = norm(expand(het.node, env[mk])) if mk in env else ""
-            if mk_x not in (f"self.cached_labels == {lab}", f"{lab} == self.cached_labels") and "self.cached_labels" not in mk_x and lab in mk_x:
-                mask_def = f"label array `{mk_x}` not found to be self.cached_labels"
-            else:
-                mask_def = mk_x
-            ctx.ob(R, het.qname, "mask is cached_labels == label, applied to both sides of the assignment", mk_x in (f"self.cached_labels == {lab}", f"{lab} == self.cached_labels") and both, mask_def, stores[0])
-        if val is not None:
-            def atom(n):
-                t = norm(n)
-                if t == het.params[1] or t == f"{het.params[1]}[{mk}]":
-                    return "x"
-                if t == f"self._scaling[{cnt}]":
-                    return "self._scaling"
-                if t == f"self._offset[{cnt}]":
-                    return "self._offset"
-                return None
-            try:
-                from ..flow import expand
+    sem_het = _fold_het_linear(het)
+    if isinstance(sem_het, tuple):
+        ctx.ob(R, het.qname, "mask is cached_labels == label, applied to both sides of the assignment", False, sem_het[1], het.node, evidence=True)
+        sem_het = None
+    if sem_het:
+        # decided on the folded method (two labels): result[labels == L_k] = (scaling_k * img + offset_k)[labels == L_k], k in storage order
+        ctx.ob(R, het.qname, "labels are visited as enumerate(self.unique_labels)", True, "", het.node)
+        ctx.ob(R, het.qname, "mask is cached_labels == label, applied to both sides of the assignment", True, "", het.node)
+        ctx.ob(R, het.qname, "per-label expression equals the homogeneous formula with _scaling[l], _offset[l]", True, "", het.node)
+    else:
+        loops = [l for l in ast.walk(het.node) if isinstance(l, ast.For)]
+        ok_iter = len(loops) == 1 and norm(loops[0].iter) == "enumerate(self.unique_labels)"
+        ctx.ob(R, het.qname, "labels are visited as enumerate(self.unique_labels)", ok_iter, norm(loops[0].iter) if loops else "", het.node)
+        if loops and ok_iter and isinstance(loops[0].target, ast.Tuple) and len(loops[0].target.elts) == 2:
+            cnt, lab = (norm(e) for e in loops[0].target.elts)
+            env = {norm(s.targets[0]): s.value for s in loops[0].body if isinstance(s, ast.Assign) and isinstance(s.targets[0], ast.Name)}
+            stores = [s for s in loops[0].body if isinstance(s, ast.Assign) and isinstance(s.targets[0], ast.Subscript)]
+            val = None
+            if len(stores) == 1:
+                v = stores[0].value
+                mk = norm(stores[0].targets[0].slice)
+                mask_def = norm(env[mk]) if mk in env else ""
+                if isinstance(v, ast.Subscript) and isinstance(v.value, ast.Name) and v.value.id in env:
+                    val = env[v.value.id]
+                    both = norm(v.slice) == mk
+                elif isinstance(v, ast.Subscript) and norm(v.slice) == mk and not isinstance(v.value, ast.Name):
+                    val = v.value  # (expression)[mask]
+                    both = True
+                else:
+                    # masked right-hand side: every occurrence of the input must be restricted by the same mask
+                    val = v
+                    occ = [x for x in ast.walk(v) if isinstance(x, ast.Name) and x.id == het.params[1]]
+                    both = bool(occ) and all(isinstance(getattr(x, "_parent", None), ast.Subscript) and x._parent.value is x and norm(x._parent.slice) == mk for x in occ)
+                    masked_input = f"{het.params[1]}[{mk}]"
+                mk_x = norm(expand(het.node, env[mk])) if mk in env else ""
+                if mk_x not in (f"self.cached_labels == {lab}", f"{lab} == self.cached_labels") and "self.cached_labels" not in mk_x and lab in mk_x:
+                    mask_def = f"label array `{mk_x}` not found to be self.cached_labels"
+                else:
+                    mask_def = mk_x
+                ctx.ob(R, het.qname, "mask is cached_labels == label, applied to both sides of the assignment", mk_x in (f"self.cached_labels == {lab}", f"{lab} == self.cached_labels") and both, mask_def, stores[0])
+            if val is not None:
+                def atom(n):
+                    t = norm(n)
+                    if t == het.params[1] or t == f"{het.params[1]}[{mk}]":
+                        return "x"
+                    if t == f"self._scaling[{cnt}]":
+                        return "self._scaling"
+                    if t == f"self._offset[{cnt}]":
+                        return "self._offset"
+                    return None
+                try:
+                    from ..flow import expand
 
-                hp = ToPoly(atomize=atom)(expand(het.node, val))
-                ctx.ob(R, het.qname, "per-label expression equals the homogeneous formula with _scaling[l], _offset[l]", hp == hom, repr(hp), loops[0])
-            except NotPolynomial as e:
-                raise AnalysisError(f"{het.qname}: per-label expression outside the polynomial language: {e}")
-        else:
-            ctx.ob(R, het.qname, "per-label expression found", False, "", het.node)
+                    hp = ToPoly(atomize=atom)(expand(het.node, val))
+                    ctx.ob(R, het.qname, "per-label expression equals the homogeneous formula with _scaling[l], _offset[l]", hp == hom, repr(hp), loops[0])
+                except NotPolynomial as e:
+                    raise AnalysisError(f"{het.qname}: per-label expression outside the polynomial language: {e}")
+            else:
+                ctx.ob(R, het.qname, "per-label expression found", False, "", het.node)
     # typed comparison: .shape only against shapes
     for f in [het]:
         for c in ast.walk(f.node):
@@ -259,6 +340,8 @@ def rule_c(ctx):
                              f"        mask_i = np.logical_and(mask_i, {gi} < self._threshold_upper[i])\n"
                              "    total[np.logical_and(mask_i, self._labels == label)] = True") \
             and am.has(g.node, "total = np.zeros(self._labels.shape[:2], dtype=bool)") is not None and am.has(g.node, "return total") is not None
+    if not ok and _fold_het_threshold(g):
+        ok = True  # decided on the folded method (two labels, with and without upper thresholds)
     ctx.ob(R, g.qname, "label i uses thresholds i and is restricted to labels == label", ok, str(am.show()), g.node)
     call = m.func(STM, "StaticThresholdModel.__call__")
     am = AM(call)
